@@ -80,7 +80,7 @@ Qed.
 Lemma insert_free_block_spec t b t' :
   insert_free_block t b = Some t' ->
   b_free b = false /\
-  t_chain t' = replace_blk (b_off b) (mkBlk (b_off b) (b_size b) true (b_tag b) 0 0 1) (t_chain t) /\
+  t_chain t' = replace_blk (b_off b) (mkBlk (b_off b) (b_size b) true None 0 0 1) (t_chain t) /\
   t_null t' = t_null t /\ t_size t' = t_size t /\ t_gran t' = t_gran t /\
   t_alloc_count t' = t_alloc_count t.
 Proof.
